@@ -370,6 +370,17 @@ func loadChunk(l *Lexer, recordLen uint64) error {
 	}
 
 	// read compression and records length into buffer
+	if uint64(compressionLen)+8 > uint64(len(l.buf)) {
+		// the fixed scratch buffer only holds short compression names; a longer one must at
+		// least fit inside the record, and is read into a buffer of its own.
+		if uint64(compressionLen)+8+8+8+4+4+8 > recordLen {
+			return fmt.Errorf("chunk compression length %d exceeds record length %d", compressionLen, recordLen)
+		}
+		l.buf, err = makeSafe(uint64(compressionLen) + 8)
+		if err != nil {
+			return fmt.Errorf("failed to allocate buffer for chunk compression: %w", err)
+		}
+	}
 	thisReadLength, err := io.ReadFull(l.reader, l.buf[:compressionLen+8])
 	readLength += thisReadLength
 	if errors.Is(err, io.ErrUnexpectedEOF) || errors.Is(err, io.EOF) {
